@@ -21,13 +21,13 @@ LiveSubjects(tbl) == {r.s : r \in {x \in tbl : x.kind = "reg" /\ ~Expired(x.exp)
 
 TReset == /\ IsEvent("reset")
           /\ now' = 0 /\ epoch' = 1 /\ seeded' = FALSE /\ ts' = 0 /\ rows' = {}
-          /\ events' = 0 /\ defects' = 0 /\ resets' = 0
+          /\ events' = 0 /\ defects' = 0 /\ resets' = 0 /\ outages' = 0
           /\ cseed' = 0 /\ cts' = 0 /\ crows' = {}
           /\ poll' = Idle /\ quiet' = 0 /\ dirty' = FALSE /\ hist' = <<>>
 
 \* the server's verdict is the logged one; timestamp, seed, number of rows and live subjects must be the model's
 TSubmit == /\ IsEvent("submit")
-           /\ Submit(Ev.s, Ev.kind, Ev.e, Ev.d, Ev.res = "accepted")
+           /\ Submit(Ev.s, Ev.kind, Ev.e, Ev.d, Ev.o, Ev.res = "accepted")
            /\ ts' = Ev.ts
            /\ (IF seeded' THEN epoch' ELSE 0) = Ev.seed
            /\ Cardinality(rows') = Ev.n
@@ -43,13 +43,20 @@ TPollSecond == /\ IsEvent("poll.second") /\ PollSecond
                /\ {r.ts : r \in poll'.rows} = ToSet(Ev.rows)
                /\ poll'.rts = Ev.rts /\ poll'.rseed = Ev.rseed
 \* the client's service row, table size, replica and Search output after the real apply
-TApply == /\ IsEvent("apply") /\ ClientApply
+TApply == /\ IsEvent("apply") /\ ClientApply(Ev.out = 1)
           /\ cts' = Ev.cts /\ cseed' = Ev.cseed
           /\ Cardinality(crows') = Ev.n
           /\ LiveSubjects(crows') = ToSet(Ev.live)
           /\ {c.s : c \in {x \in crows' : x.val /\ ~Expired(x.exp)}} = ToSet(Ev.search)
 
-TraceNext == TReset \/ TSubmit \/ TTick \/ TServerReset \/ TPollFirst \/ TPollSecond \/ TApply
+\* a background validation round (a round with nothing to flag changes nothing)
+TValidate == /\ IsEvent("validate")
+             /\ IF Pending THEN ClientValidate ELSE UNCHANGED vars
+             /\ Cardinality(crows') = Ev.n
+             /\ LiveSubjects(crows') = ToSet(Ev.live)
+             /\ {c.s : c \in {x \in crows' : x.val /\ ~Expired(x.exp)}} = ToSet(Ev.search)
+
+TraceNext == TReset \/ TSubmit \/ TTick \/ TServerReset \/ TPollFirst \/ TPollSecond \/ TApply \/ TValidate
 TraceInit == Init /\ l = 1 /\ TLCSet(1, 1)
 TraceSpec == TraceInit /\ [][TraceNext]_tvars
 
